@@ -122,7 +122,7 @@ Lemma init_inv E fmts w b bk fmt :
   map cfg_of (w_bks (init_pipeline E w b bk fmt)) = map cfg_of (w_bks w).
 Proof.
   intros [I1 I2] Hns Hb Hf.
-  set (bk0 := {| b_cls := b_cls bk; b_user := b_user bk; b_collect := b_collect bk; b_last := Some (w_next w, fmt) |}).
+  set (bk0 := {| b_cls := b_cls bk; b_user := b_user bk; b_collect := b_collect bk; b_opts := b_opts bk; b_last := Some (w_next w, fmt) |}).
   assert (Hcfg : map cfg_of (w_bks (init_pipeline E w b bk fmt)) = map cfg_of (w_bks w)).
   { unfold init_pipeline. simpl. eapply set_nth_map; [exact Hb | reflexivity]. }
   split; [|exact Hcfg]. split.
@@ -202,9 +202,9 @@ Lemma step_inv E fmts w o rest :
 Proof.
   intros Hwf Hinv Hfm Hns.
   assert (Hns0 : NS E fmts w) by (eapply no_sharing_prefix; exact Hns).
-  destruct o as [r|cls user collect|b fmt|b rs fmt|b r fmt]; simpl in Hfm |- *.
+  destruct o as [r|cls user collect opts|b fmt|b rs fmt|b r fmt]; simpl in Hfm |- *.
   - split; [exact Hwf|]. split; [exact Hinv | exact Hns].
-  - split; [exact Hwf|]. split.
+  - split; [exact (step_wf E w (ONew cls user collect opts) Hwf)|]. split.
     + destruct Hinv as [I1 I2]. split.
       * intros b bk H. simpl in H. destruct (Nat.lt_ge_cases b (List.length (w_bks w))) as [Hl|Hl].
         -- rewrite nth_error_app1 in H by exact Hl. specialize (I1 b bk H). unfold owns_ok in *. simpl. exact I1.
@@ -272,7 +272,7 @@ Theorem frame_rule_no_sharing E fmts ops b bk fmt r :
   no_sharing E fmts ops = true -> forallb (op_fmt_ok fmts) ops = true ->
   let w := fst (run E init ops) in
   nth_error (w_bks w) b = Some bk -> fmt_ok bk fmt = true ->
-  out_obs (snd (step E w (OConvRule b r fmt))) = ideal_obs_rule E (b_cls bk) (b_user bk) (b_collect bk) fmt r.
+  out_obs (snd (step E w (OConvRule b r fmt))) = ideal_obs_rule E (b_cls bk) (b_user bk) (b_collect bk) (b_opts bk) fmt r.
 Proof.
   intros Hns Hf w Hb Hfm. apply frame_rule_reachable; [exact Hb | | exact Hfm].
   apply (no_sharing_owns E fmts ops Hns Hf b bk Hb).
